@@ -35,6 +35,9 @@ func init() {
 }
 
 func runC12(c *an.Ctx) {
+	// ---- R11: an answer served from a result cache is initialised from the current request
+	c.Floor("C12-R11", 1)
+	sharedReplyInit(c, "C12-R11")
 	c.Floor("C12-R1", 2)
 	c.Floor("C12-R2", 2)
 	c.Floor("C12-R3", 2)
